@@ -58,6 +58,12 @@ def cmd_one(argv):
     return 0
 
 
+def _no_text(r0):
+    if isinstance(r0, list) and len(r0) >= 2 and r0[0] == "handle" and r0[1] == "_Text":
+        return ["handle", "_Text"]
+    return r0
+
+
 def cmd_runjson(argv):
     """internal: one run, canonical results as JSON on stdout (used to confirm a hash-seed digest mismatch tolerantly)"""
     from .seed import run_seed
@@ -68,7 +74,7 @@ def cmd_runjson(argv):
     from . import isolate
     plan = gen_plan(prop, run_seed(vseed, "", prop, i), json.loads(os.environ.get("VERIF_OVERRIDES", "null")))
     res = isolate.execute(plan, want_refs=False)
-    out = [[r["id"], r["status"], canon.enc(r.get("result"))] for r in res["records"]]
+    out = [[r["id"], r["status"], canon.enc(_no_text(r.get("result")))] for r in res["records"]]
     sys.stdout.write("RUNJSON " + json.dumps(out) + "\n")
     return 0
 
@@ -91,7 +97,7 @@ def main(argv):
         load_ops(plan["property"])
         from . import isolate
         res = isolate.execute(plan, want_refs=False)
-        sys.stdout.write("RUNJSON " + json.dumps([[r["id"], r["status"], canon.enc(r.get("result"))] for r in res["records"]]) + "\n")
+        sys.stdout.write("RUNJSON " + json.dumps([[r["id"], r["status"], canon.enc(_no_text(r.get("result")))] for r in res["records"]]) + "\n")
         return 0
     from . import driver
     return driver.main(cmd, rest)
